@@ -74,6 +74,23 @@ fn main() {
         .flat_map(|n| ["Lut", "LutN"].into_iter().map(move |t| (n, t)))
         .filter(|(n, t)| *t == "Lut" || *n <= tbl::MAX_STATIC)
         .collect();
+    // cold start: the FIRST request of the process for each constructor at each multi-word size comes from 8
+    // threads released together by a barrier (lazily initialised process-wide tables have their race here, once)
+    {
+        let budget = std::time::Duration::from_millis(200);
+        let mut total = 0u64;
+        for n in (7..=MAX_N).rev() {
+            for op in ["majority", "parity", "threshold", "equals", "symmetric"] {
+                let arg = if op == "symmetric" { 0x5a5a_a5a5_3c3c_c3c3u64 ^ n as u64 } else { (n as u64 + 1) / 2 };
+                let mut evs = vec![Ev::new(op, "Lut", n).int64(arg)];
+                if n <= tbl::MAX_STATIC {
+                    evs.push(Ev::new(op, "LutN", n).int64(arg));
+                }
+                total += run_events_concurrently(&mut ctx, seed, cli.threads, &evs, budget, |c, e| exec_dispatch(c, e));
+            }
+        }
+        ctx.bump("cold-start:first-requests", total);
+    }
     run_sharded(&mut ctx, cli.threads, shards.len(), |ctx, s| {
         let (n, ty) = shards[s];
         let mut rng = Rng::new(seed ^ ((n as u64) << 24) ^ if ty == "Lut" { 0 } else { 0xabcd });
